@@ -390,7 +390,7 @@ class Sched:
         if me is None:
             self.now += d
             return
-        me.wake_at = self.now + d
+        me.wake_at = round(self.now + d, 6)     # microsecond lattice: float error must not accumulate over many sleeps
         self.yield_()
         me.wake_at = None
 
